@@ -52,8 +52,9 @@ ABSTRACT = ('sp_arrow', 'sp_make_default', 'sp_make_pfn', 'aw_subscribe', 'promi
 def unit(name, alias, uses=(), extra_types=None, extra_roots=(), extra_boundary=(), extra_globals=None, **kw):
     """alias: function under contract (enforced on its real body). uses: further aliases the unit needs; abstract callees (model /
     environment stubs) go to names_opt, so that a code change that stops calling one fails a postcondition, not the extraction."""
-    names = {a: N[a] for a in (alias, 'fi_dtor') + tuple(u for u in uses if u not in ABSTRACT)}
-    names_opt = {a: N[a] for a in uses if a in ABSTRACT}
+    opt = ABSTRACT + (('tr_invoke',) if alias != 'tr_invoke' else ())     # tr_invoke: only instantiated while charge() is called
+    names = {a: N[a] for a in (alias, 'fi_dtor') + tuple(u for u in uses if u not in opt)}
+    names_opt = {a: N[a] for a in uses if a in opt}
     t = dict(TYPES); t.update(extra_types or {})
     g = dict(GLOBALS); g.update(extra_globals or {})
     d = dict(name=name, driver='c17_shared_future.cpp', roots=[N[alias], N['fi_dtor']] + list(extra_roots), names=names, names_opt=names_opt, types=t, globals=g,
@@ -65,7 +66,7 @@ def unit(name, alias, uses=(), extra_types=None, extra_roots=(), extra_boundary=
 UNITS = [
     unit('ctor_default', 'sf_ctor_default'),
     unit('charge', 'tr_charge', uses=('tr_invoke', 'aw_subscribe', 'sp_arrow'), extra_types=ACCESS_T),
-    unit('tracer_resume', 'tr_invoke'),
+    unit('tracer_resume', 'tr_invoke', under_contract=[SFQ + '::resolve_cb::charge(std::shared_ptr<' + FIQ + '>)::{lambda(cocls::awaiter*, auto:1)#1}::__invoke<void*>(cocls::awaiter*, void*)']),
     unit('dtor', 'sf_dtor'),
     unit('copy_ctor', 'sf_copy_ctor'),
     unit('copy_assign', 'sf_copy_assign'),
@@ -87,6 +88,13 @@ UNITS = [
 ]
 
 # ---- reference lemma over the contracts (unbounded history; loop invariant)
+# ---- native replay of the init_if_needed defect (replay/c17_default_get_promise.cpp, see tools/README.md)
+RP_FLAGS = ['-fsanitize=address', '-g']
+for _u in UNITS:
+    if _u['name'] == 'get_promise_default':
+        _u['replay'] = dict(src='c17_default_get_promise.cpp', mode='default_get_promise', flags=RP_FLAGS)
+    if _u['name'] in ('init_if_needed', 'get_promise_initialised'):
+        _u['replay'] = dict(src='c17_default_get_promise.cpp', mode='init_keeps_state', flags=RP_FLAGS)
 UNITS.append(dict(unit('lemma', 'sf_ctor_default'), enforce=None, harness='h_lemma', spec=['C17/sf_spec.h', 'C17/h_lemma.c'], loop_contracts=True, unwind=None,
                   kind='lemma', under_contract=[], note='lemma over the reference-count clauses of the enforced contracts (shared macros of sf_spec.h)'))
 # ---- bounded drive over the real bodies: every order of <= L operations (enumerated here, executed concretely by CBMC)
@@ -130,8 +138,8 @@ def drive(prefix, start, script_list, tiers, timeout=300):
     """one unit per script: CBMC executes a fixed order almost concretely (~10 s); several scripts in one run do not stay concrete"""
     units = []
     names = {d: '^%s$' % d for d in DRV}
-    names.update({a: N[a] for a in ('fi_dtor', 'fi_ctor_default', 'fi_ctor_pfn', 'tr_invoke')})
-    names_opt = {a: N[a] for a in ('sp_arrow', 'sp_make_default', 'sp_make_pfn', 'aw_subscribe', 'env_promise_fn')}
+    names.update({a: N[a] for a in ('fi_dtor', 'fi_ctor_default', 'fi_ctor_pfn')})
+    names_opt = {a: N[a] for a in ('sp_arrow', 'sp_make_default', 'sp_make_pfn', 'aw_subscribe', 'env_promise_fn', 'tr_invoke')}
     names_opt['sp_suspend_now'] = SN_RX; names_opt['sp_merge'] = MERGE_RX
     t = dict(TYPES); t.update(ACCESS_T); t.update(MAKE_T); t.update(PFN='c17_promise_fn', CAW='c17_counting_awaiter')
     how = 'shared_future(Fn(promise))' if start == 1 else 'default construction + get_promise()'
@@ -165,13 +173,46 @@ def exhaustive(maxlen):
         # DA needs an empty slot: with 3 slots it is available whenever owners < 3
         out.append(t)
     return out
-UNITS += drive('drive_ctor', 1, QUICK_CTOR, ['quick', 'thorough']) + drive('drive_gp', 0, QUICK_GP, ['quick', 'thorough'])
+UNITS += drive('drive_ctor', 1, QUICK_CTOR, ['quick', 'thorough'])
+UNITS += [dict(u, replay=dict(src='c17_default_get_promise.cpp', mode='default_get_promise', flags=RP_FLAGS)) for u in drive('drive_gp', 0, QUICK_GP, ['quick', 'thorough'])]
 _q = set(tuple(x) for x in QUICK_CTOR)
 UNITS += drive('drive_all_ctor', 1, [x for x in exhaustive(4) if tuple(x) not in _q], ['thorough'])
 
 META = dict(
     level='proof',
-    level_text='TODO',
-    level_note='TODO',
-    technique='CBMC code contracts (requires/ensures/assigns/frees) enforced per function via goto-instrument --dfcc on the C translation of clang IR of shared_future.h',
-    trusted_base=[], assumptions=[], explanation='see level_text')
+    level_text=('Every member of shared_future<int> named by the property (default constructor, the two function-taking constructors, init_if_needed, get_promise, ready, value, '
+                'wait, operator co_await, copy constructor, copy assignment, destructor) and the resolve tracer (resolve_cb::charge and its resume lambda) is verified against a contract '
+                'on its real translated body, for every strong count < 2^30 and every state of the future (initialised / pending / ready with or without value), with std::shared_ptr '
+                'modelled as an explicit control block whose drop-to-zero runs the real ~future_internal and frees the block (CBMC use-after-free / double-free checks on). Contract '
+                'clauses: charge takes exactly one strong reference iff the tracer gets subscribed (future pending at that instant) and installs the reference-dropping lambda; the lambda '
+                'drops exactly that reference and destroys+frees the state iff it was the last one; constructors wire the tracer exactly when the future is pending (count 2 vs 1, one '
+                'allocation); copy shares the same state and adds exactly one reference; destruction / assignment drop exactly one and release the state exactly once iff last - never '
+                'while pending; get_promise on a default-constructed object creates the state and returns a promise bound to it; ready()/value()/wait()/co_await read the shared state '
+                '(value() returns the one object stored in it). Every contract keeps the state invariant "tracer holds its self-reference <=> future pending". A reference lemma over '
+                'exactly these reference-count clauses (shared macros), with a loop invariant for an UNBOUNDED history of copies, drops and the resolution, proves: the state is alive '
+                'while pending even with no handle left, it is released exactly once after the last of {handles, tracer} lets go, never twice, never leaked. '
+                'Bounded part (reported separately): fixed orders of copy / assign / destroy / subscribe / resolve / break-promise are EXECUTED on the real bodies including promise, '
+                'future::set/resolve and the awaiter chain walk (18 orders in the quick tier, every order of <= 4 operations in the thorough tier): awaiters resumed exactly once and '
+                'never early, every copy reads the same value object, allocations == frees, no access after free.'),
+    level_note=('Sequential (single-thread) reading only: the cross-thread clause of the statement (a resolver racing with threads that copy / drop handles) rests on (i) the atomicity of the '
+                'shared_ptr reference count (libstdc++, assumed), (ii) C01/C02 for the future slot (resolved at most once, every subscribed awaiter - here the tracer - resumed exactly '
+                'once), (iii) the invariant proved here; it is argued, not machine-checked. T = int only: destruction of the stored value is observed as "the real ~future_internal ran '
+                'exactly once", not with an instance-counting T; stored-exception and reference states of the future are excluded by precondition. The "any ordering" clause is proved '
+                'on the level of the reference-count clauses (lemma) and cross-checked by executing a bounded set of orders, not proved on the real bodies for unbounded histories. '
+                'awaiter::subscribe_check_ready and (in contract units) promise destruction / the user functions are abstract callees. shared_future::force_wait/join/sync/force_sync, '
+                'operator<<, set_value/set_exception and the conversion operator Base& are not covered. On the unchanged tree the units init_if_needed, get_promise_* and the '
+                'get_promise drives FAIL: init_if_needed has an inverted test (genuine defect, natively reproduced, candidate fix specs/C17/fix_init.diff).'),
+    technique=('CBMC 6.11 code contracts (requires/ensures/assigns/frees, __CPROVER_pointer_equals) enforced per function via goto-instrument --dfcc on the C translation of the clang IR of '
+               'shared_future.h; std::shared_ptr boundary at std::__shared_count with a control-block model; lemma harness with a loop contract over the contract clauses; bounded '
+               'execution of fixed operation orders on the translated real bodies; SAT back end cadical'),
+    trusted_base=['model: std::__shared_count<_S_atomic> as an explicit control block, drop-to-zero runs the real translated ~future_internal once and frees the block; make_shared = one allocation + the real constructor; '
+                  'operator-> on an empty shared_ptr is an obligation and ends the path (lib/model_sharedptr_cb.c); std::shared_ptr / __shared_ptr wrappers themselves are translated from libstdc++',
+                  'abstract callee: awaiter::subscribe_check_ready in its sequential reading - refused iff the slot holds the ready marker, otherwise pushed (specs/C17/sf_spec.h; concurrent behaviour is C02/C03)',
+                  'abstract callees in contract units: promise<int>::~promise (breaks an owned promise of a future nobody awaits), the user functors c17_promise_fn / c17_future_fn (keep / resolve / drop; never throw), future<int>::wait() as a recording stub',
+                  'drive only: suspend_point::operator<< / suspend_now replaced by stubs that assert they only ever see empty suspend points'],
+    assumptions=['strong count < 2^30 (no counter overflow)', 'single thread; atomic reference counting of std::shared_ptr is libstdc++\'s responsibility',
+                 'the function passed to a constructor does not throw (future::result_of catch branch is an explicit "not covered" obligation that is unreachable)',
+                 'future states "stored exception" and "reference" excluded by precondition in dtor / value / tracer units',
+                 'C01/C02 (assumed by the lemma): a pending future is resolved at most once and resolution resumes every subscribed awaiter exactly once',
+                 'get_promise() on a non-empty handle requires an initialised, not yet pending future (future::get_promise precondition)'],
+    explanation='see level_text / level_note')
